@@ -75,7 +75,7 @@ pub struct Input {
     pub class: &'static str,
 }
 
-pub const KINDS: u64 = 13;
+pub const KINDS: u64 = 14;
 
 /// One corpus input. `max_len` bounds generated sizes (Miri uses small ones).
 pub fn gen_input(rng: &mut Rng, kind: u64, small: bool) -> Input {
@@ -167,6 +167,30 @@ pub fn gen_input(rng: &mut Rng, kind: u64, small: bool) -> Input {
             let v = adversarial::ver_overlap(rng, enc, total, var);
             let spec = adversarial::wrap_in_object(enc, None, Some(&v), None);
             Input { bytes: build(&spec, rng).bytes, what: format!("object with version sections: {}", v.what), class: "adversarial-symver" }
+        }
+        13 => {
+            // a segment-only object (no section headers): PT_DYNAMIC with the entries a link editor writes, a PT_LOAD
+            // that maps the file, notes; then boundary values in the fields of some program headers
+            o.density = 7;
+            o.no_shdrs = true;
+            o.weird_views = false;
+            let (spec, _) = gen_object(rng, enc, &o);
+            let mut b = build(&spec, rng);
+            let mut log = Vec::new();
+            let w = if enc.c64 { 64 } else { 32 };
+            for i in 0..b.phnum {
+                if rng.chance(1, 2) {
+                    continue;
+                }
+                for _ in 0..1 + rng.usize_below(2) {
+                    let f = *rng.pick(&["p_offset", "p_vaddr", "p_filesz", "p_memsz", "p_paddr", "p_align"]);
+                    let v = rng.boundary(w);
+                    if b.poke(&format!("phdr[{i}].{f}"), v) {
+                        log.push(format!("phdr[{i}].{f}={v:#x}"));
+                    }
+                }
+            }
+            Input { bytes: b.bytes, what: format!("segment-only {} with linked PT_DYNAMIC; {}", enc.name(), log.join(" ")), class: "segment-only-linked" }
         }
         12 => {
             o.density = 7;
